@@ -1,72 +1,111 @@
 import Fabio.Generated.C03
 import Fabio.Model.C03
 /-! C03 — obligations over the facts regenerated from `/repo` on every run: what the model in
-`Model/C03.lean` (and `Model/Route.lean`'s `pathLt`) silently assumes about the source. -/
+`Model/C03.lean` (and `Model/Route.lean`'s `pathLt`) silently assumes about the source.
+
+The facts are *canonical guarded events* (tools/factgen/c03canon.go): receiver `recv`, parameters `p0 p1 …`,
+named results `res0 …`, single-assignment locals replaced by their defining expression, locals from a
+multi-value call named after the callee (`Get.0`, `Get.1`), range variables `key(X)`/`val(X)`, other locals
+`var0 …`; single-`return` helpers are inlined, other unexported helpers are looked into; each event lists
+(sorted, after `|`) the conditions under which it is reached, including the negations contributed by earlier
+guard clauses; named constants are folded and switches rewritten to if-chains. So the obligations below pin
+what the code does, not how it is spelled. `scanHost` is the role name of `Table.lookup` ("the method
+`LookupHost` returns a call of"), `matcher:prefix` of `prefixMatcher` ("the value of `route.Matcher["prefix"]`). -/
 namespace Fabio.Props.C03Facts
 open Fabio Fabio.Model.C03 Fabio.Generated.C03
 
-/-- the three configurable matchers and the functions behind them (`MatcherKind`) -/
-theorem matcher_table : matcherTable = ["glob=globMatcher", "iprefix=iPrefixMatcher", "prefix=prefixMatcher"] := by decide
+/-- the three configurable matchers and what each returns for (uri = `p0`, route = `p1`): `pathMatch` -/
+theorem matcher_table : matcherTable =
+    ["glob => return globMatch(p1.Glob, p0)",
+      "iprefix => return strings.HasPrefix(strings.ToLower(p0), strings.ToLower(p1.Path))",
+      "prefix => return strings.HasPrefix(p0, p1.Path)"] := by decide +kernel
 
-/-- `prefixMatcher` is `HasPrefix(uri, r.Path)`; `iPrefixMatcher` lower-cases both sides first;
-`globMatcher` asks the route's compiled glob (`pathMatch`) through `globMatch`, which is `g.Match(s)` with a
-panic of the library turned into "no match" (the model's glob parameters are total functions) -/
-theorem matcher_bodies :
-    prefixMatcherReturns = ["strings.HasPrefix(uri, r.Path)"] ∧ prefixMatcherAssigns = [] ∧
-    iPrefixMatcherReturns = ["strings.HasPrefix(lowerURI, lowerPath)"] ∧
-    iPrefixMatcherAssigns = ["lowerURI := strings.ToLower(uri)", "lowerPath := strings.ToLower(r.Path)"] ∧
-    globMatcherReturns = ["globMatch(r.Glob, uri)"] ∧ globMatcherAssigns = [] ∧
-    globMatchReturns = ["g.Match(s)"] ∧ globMatchAssigns = ["ok = false"] ∧ globMatchRecovers = 1 := by decide
+/-- `globMatch(g, s)` is `g.Match(s)`, with a panic of the library turned into "no match" (the model's glob
+parameters are total functions) -/
+theorem glob_match_recovers : globMatchEvents =
+    ["call recover()",
+      "assign res0 = false | nil != recover()",
+      "return p0.Match(p1)"] := by decide +kernel
 
 /-- `Routes.Less(i,j)` = `pathLt rt[j].Path rt[i].Path`: lower-cased paths first, then the paths -/
-theorem routes_less :
-    lessAssigns = ["li, lj := strings.ToLower(rt[i].Path), strings.ToLower(rt[j].Path)"] ∧
-    lessReturns = ["lj < li", "rt[j].Path < rt[i].Path"] := by decide
+theorem routes_less : lessEvents =
+    ["return strings.ToLower(recv[p1].Path) < strings.ToLower(recv[p0].Path) | strings.ToLower(recv[p0].Path) != strings.ToLower(recv[p1].Path)",
+      "return recv[p1].Path < recv[p0].Path | strings.ToLower(recv[p0].Path) == strings.ToLower(recv[p1].Path)"] := by decide +kernel
 
-/-- the default ports and their TLS conditions are the model's `port80` / `port443` -/
+/-- default ports: `:80` is stripped exactly when the TLS flag (2nd parameter) is false, `:443` exactly when
+it is true — in either of the equivalent forms `if c && HasSuffix(h,s) { return h[:len(h)-len(s)] }` /
+`strings.TrimSuffix(h, s)`; every other return gives the host back unchanged. The literals are the model's
+`port80` / `port443`. `normalizeHost` lower-cases the result. -/
 theorem default_ports :
-    defaultPortConds = ["!tls && strings.HasSuffix(host, \"" ++ String.ofList port80 ++ "\")",
-                        "tls && strings.HasSuffix(host, \"" ++ String.ofList port443 ++ "\")"] ∧
-    defaultPortReturns = ["host[:len(host)-len(\":80\")]", "host[:len(host)-len(\":443\")]", "host"] ∧
-    normalizeHostReturns = ["strings.ToLower(normalizeHostNoLower(host, tls))"] := by decide
+    defaultPortRules = ["plain strip \"" ++ String.ofList port80 ++ "\"", "tls strip \"" ++ String.ofList port443 ++ "\""] ∧
+    (defaultPortOtherReturns = [] ∨ defaultPortOtherReturns = ["p0"]) ∧
+    normalizeHostEvents = ["return strings.ToLower(normalizeHostNoLower(p0, p1))"] := by decide +kernel
 
-/-- both host selections normalise the request host and the pattern with `normalizeHost` (D05), compare
-as the model does, sort with `sortHostsReverseHostPort`, and never call `MustCompile` (D03) -/
-theorem host_selection :
-    matchingHostsAssigns = ["host := normalizeHost(req.Host, req.TLS != nil)", "normpat := normalizeHost(pattern, req.TLS != nil)",
-      "g, err := globCache.Get(normpat)", "hosts = append(hosts, pattern)", "hosts = sortHostsReverseHostPort(hosts)"] ∧
-    matchingHostsConds = ["err != nil", "globMatch(g, host)"] ∧ matchingHostsMustCompile = 0 ∧
-    matchingHostNoGlobAssigns = ["host := normalizeHost(req.Host, req.TLS != nil)", "normpat := normalizeHost(pattern, req.TLS != nil)",
-      "hosts = append(hosts, strings.ToLower(pattern))", "hosts = sortHostsReverseHostPort(hosts)"] ∧
-    matchingHostNoGlobConds = ["normpat == host"] ∧ matchingHostNoGlobMustCompile = 0 := by decide
+/-- `matchingHosts`: walks the table's keys; compiles the *normalised* key through the glob cache; a key is
+appended only if it compiled (`Get.1 == nil`: D03 — and no `MustCompile` event exists) and `globMatch`es the
+normalised request host; the list is sorted by `sortHostsReverseHostPort` -/
+theorem host_selection_glob : matchingHostsEvents =
+    ["range recv",
+      "call p1.Get(strings.ToLower(normalizeHostNoLower(key(recv), nil != p0.TLS)))",
+      "assign res0 = append(res0, key(recv)) | Get.1 == nil & globMatch(Get.0, strings.ToLower(normalizeHostNoLower(p0.Host, nil != p0.TLS)))",
+      "assign res0 = sortHostsReverseHostPort(res0)",
+      "return "] := by decide +kernel
 
-/-- the host order: by reversed name descending, ties by the key (`hostBefore`); then host names before
-patterns, stably (`sortHosts`); the pattern test is `isGlobPat` -/
-theorem host_order :
-    sortHostsSortCalls = ["sort.Slice", "sort.SliceStable"] ∧
-    sortHostsAssigns = ["rev := make(map[string]string, len(hosts))", "rev[h] = ReverseHostPort(h)", "ri, rj := rev[hosts[i]], rev[hosts[j]]"] ∧
-    sortHostsReturns = ["hosts", "ri > rj", "hosts[i] > hosts[j]", "!isHostPattern(hosts[i]) && isHostPattern(hosts[j])", "hosts"] ∧
-    isHostPatternReturns = ["host == \"\" || strings.ContainsAny(host, \"*?[{\\\\\")"] := by decide
+/-- `matchingHostNoGlob`: the lower-cased key is appended iff its normalised form equals the normalised
+request host (D05: both sides go through `normalizeHost`) -/
+theorem host_selection_noglob : matchingHostNoGlobEvents =
+    ["range recv",
+      "assign res0 = append(res0, strings.ToLower(key(recv))) | strings.ToLower(normalizeHostNoLower(key(recv), nil != p0.TLS)) == strings.ToLower(normalizeHostNoLower(p0.Host, nil != p0.TLS))",
+      "assign res0 = sortHostsReverseHostPort(res0)",
+      "return "] := by decide +kernel
 
-/-- the metacharacters of `isHostPattern` are exactly those of the model's `isGlobPat` -/
+/-- the host order: nothing to do below two hosts; `var0` maps every host to `ReverseHostPort(host)`; first
+sort: reversed name descending, ties by the key (`hostBefore`); second, stable: host names before patterns,
+where "pattern" is `host == "" || ContainsAny(host, metacharacters)` (`isGlobPat`, `sortHosts`) -/
+theorem host_order : sortHostsEvents =
+    ["return p0 | len(p0) < 2",
+      "store var0[val(p0)] = ReverseHostPort(val(p0)) | 1 < len(p0)",
+      "freturn var0[p0[a1]] < var0[p0[a0]] | 1 < len(p0) & var0[p0[a0]] != var0[p0[a1]]",
+      "freturn p0[a1] < p0[a0] | 1 < len(p0) & var0[p0[a0]] == var0[p0[a1]]",
+      "call sort.Slice(p0, func) | 1 < len(p0)",
+      "freturn !(\"\" == p0[a0] || strings.ContainsAny(p0[a0], \"*?[{\\\\\")) && (\"\" == p0[a1] || strings.ContainsAny(p0[a1], \"*?[{\\\\\")) | 1 < len(p0)",
+      "call sort.SliceStable(p0, func) | 1 < len(p0)",
+      "return p0 | 1 < len(p0)"] := by decide +kernel
+
+/-- the metacharacters of the pattern test are exactly those of the model's `isGlobPat` -/
 theorem glob_metacharacters :
-    "*?[{\\".toList.all (fun c => isGlobPat [c]) = true ∧ isGlobPat "az09.-:]}!,".toList = false ∧ isGlobPat [] = true := by decide
+    "*?[{\\".toList.all (fun c => isGlobPat [c]) = true ∧ isGlobPat "az09.-:]}!,".toList = false ∧ isGlobPat [] = true := by decide +kernel
 
-/-- `Lookup` appends the host-less fallback `""` once, after the host selection and before the loop;
-chooses the selection by `globDisabled`; looks every host up with the request path and the configured
-matcher; `lookup` lower-cases the host and walks `t[host]` in order; `LookupHost` is `lookup` with the
-prefix matcher on "/" -/
-theorem lookup_shape :
-    lookupFallbackAppendedLast = true ∧
-    lookupGlobSwitch = ["globDisabled => hosts = t.matchingHostNoGlob(req)"] ∧
-    lookupCalls = ["t.lookup(h, req.URL.Path, trace, pick, match)"] ∧
-    lookupFirstStmt = "host = strings.ToLower(host)" ∧ lookupRanges = ["t[host]"] ∧
-    lookupHostReturns = ["t.lookup(host, \"/\", \"\", pick, prefixMatcher)"] := by decide
+/-- `Lookup`: `matchingHostNoGlob(req)` when `globDisabled` (6th parameter), else `matchingHosts(req, globCache)`;
+then `""` is appended to that list; then every host of the list is scanned in order with the request path, the
+configured picker and matcher; the function returns its result variable -/
+theorem lookup_shape : lookupEvents =
+    ["call recv.matchingHostNoGlob(p0) | p5",
+      "call recv.matchingHosts(p0, p4) | !p5",
+      "call append(var0, \"\")",
+      "range var0",
+      "call recv.scanHost(val(var0), p0.URL.Path, p1, p2, p3)",
+      "return res0"] := by decide +kernel
+
+/-- the per-host scan (`Table.lookup`): routes of the lower-cased host in table order; at the first route the
+matcher accepts: no target ⇒ nil, one target ⇒ it, else the picker's choice; nil when no route matches
+(`lookupRoutes`, `lookup`) -/
+theorem scan_host : scanHostEvents =
+    ["range recv[strings.ToLower(p0)]",
+      "return nil | 0 == len(val(recv[strings.ToLower(p0)]).Targets) & p4(p1, val(recv[strings.ToLower(p0)]))",
+      "assign var0 = val(recv[strings.ToLower(p0)]).Targets[0] | 0 != len(val(recv[strings.ToLower(p0)]).Targets) & 1 == len(val(recv[strings.ToLower(p0)]).Targets) & p4(p1, val(recv[strings.ToLower(p0)]))",
+      "assign var0 = p3(val(recv[strings.ToLower(p0)])) | 0 != len(val(recv[strings.ToLower(p0)]).Targets) & 1 != len(val(recv[strings.ToLower(p0)]).Targets) & p4(p1, val(recv[strings.ToLower(p0)]))",
+      "return var0 | 0 != len(val(recv[strings.ToLower(p0)]).Targets) & p4(p1, val(recv[strings.ToLower(p0)]))",
+      "return nil"] := by decide +kernel
+
+/-- `LookupHost` is the scan with the prefix matcher on "/" -/
+theorem lookup_host : lookupHostEvents =
+    ["return recv.scanHost(p0, \"/\", \"\", p1, matcher:prefix)"] := by decide +kernel
 
 /-- the HTTP handler (main.go) and the gRPC interceptor hand `Lookup` the configured picker, matcher, glob
 cache and `GlobMatchingDisabled` -/
-theorem lookup_callers :
-    lookupCallers = ["route.GetTable(): pick, match, g.GlobCache, g.Config.GlobMatchingDisabled",
-                     "route.GetTable(): pick, match, globCache, cfg.GlobMatchingDisabled"] := by decide
+theorem lookup_callers : lookupCallers =
+    ["route.Picker[p0.Proxy.Strategy], route.Matcher[p0.Proxy.Matcher], route.NewGlobCache(p0.GlobCacheSize), p0.GlobMatchingDisabled",
+      "route.Picker[recv.Config.Proxy.Strategy], route.Matcher[recv.Config.Proxy.Matcher], recv.GlobCache, recv.Config.GlobMatchingDisabled"] := by decide +kernel
 
 end Fabio.Props.C03Facts
